@@ -223,6 +223,62 @@ def b_roundtrip(ctx):
     ctx.sample({'config': '3D hex8 + hex20 mixed, permuted ids, interleaved rows', 'variables': ['DISPLACEMENT', 'STRESS_CAUCHY', 'TEMP', 'HEATFLUX']})
 
 
+@bounded('C20', 'one-importer-several-geometries', shards=4)
+def b_several(ctx):
+    """a file with several geometries (different element types, ids, sizes) and variables in several states, read through ONE importer object in every order and
+    repeatedly: every read returns that geometry's own rows, coordinates and values - what the importer read before does not matter ("reading is repeatable");
+    added after seed C20-d cached the mesh index on the importer without keying it by geometry"""
+    import itertools
+    import warnings
+    import numpy as np
+    import pylife.vmap as vmap
+    warnings.simplefilter('ignore')
+    cases = [(2, [[3], [4]], ('contiguous', 'gapped')), (2, [[4, 3], [8]], ('permuted', 'contiguous')), (3, [[4], [8]], ('contiguous', 'permuted')), (3, [[8, 6], [10], [4]], ('gapped', 'contiguous', 'large'))]
+    ctx.bound = "4 files with 2-3 geometries each (2D and 3D, single and mixed element types, different id schemes and sizes), node variable DISPLACEMENT and element-nodal STRESS_CAUCHY per geometry; every order of reading the geometries through one importer, each geometry read twice"
+    ctx.rule = "every (file, reading order) is one case"
+    for ci, (dim, typesets, idschemes) in enumerate(cases):
+        if not ctx.mine():
+            continue
+        rng = np.random.default_rng(40 + ci)
+        meshes = {}
+        path = scratch_file()
+        try:
+            ex = vmap.VMAPExport(path)
+            for gi, (types, ids) in enumerate(zip(typesets, idschemes)):
+                nodes_ok = [t for t in types if t in ELEMENT_NODES[dim]]
+                full = add_fields(rng, make_mesh(rng, dim, nodes_ok or [ELEMENT_NODES[dim][0]], 3 + 2 * gi, ids=ids))
+                name = f'geo{gi}'
+                ex.add_geometry(name, full)
+                ex.add_variable('STATE-1', name, 'DISPLACEMENT', full)
+                ex.add_variable('STATE-1', name, 'STRESS_CAUCHY', full)
+                meshes[name] = expected_frame(full)
+            for order in itertools.permutations(sorted(meshes)):
+                imp = vmap.VMAPImport(path)
+                ctx.case(True, key=(ci, order))
+                try:
+                    for name in list(order) + list(order):
+                        want = meshes[name]
+                        try:
+                            got = imp.make_mesh(name, 'STATE-1').join_coordinates().join_variable('DISPLACEMENT').join_variable('STRESS_CAUCHY').to_frame()
+                        except Exception as e:   # noqa
+                            ctx.fail(f'C20:several-geometries:raises:{type(e).__name__}', f'reading geometry {name} after {order} through one importer raises {type(e).__name__}: {str(e)[:150]}', {'case': ci, 'order': order})
+                            break
+                        cols = ['x', 'y'] + (['z'] if 'z' in want else []) + ['dx', 'dy', 'dz', 'S11', 'S22', 'S33', 'S12', 'S13', 'S23']
+                        if list(got.index) != list(want.index):
+                            ctx.fail('C20:several-geometries:rows', f'geometry {name} read through an importer that has read other geometries (order {order}) returns rows {list(got.index)[:4]}..., written {list(want.index)[:4]}...', {'case': ci, 'order': order})
+                            break
+                        bad = [c for c in cols if c in want and not np.array_equal(got[c].to_numpy(dtype=float), want[c].to_numpy(dtype=float))]
+                        if bad:
+                            ctx.fail('C20:several-geometries:values', f'geometry {name} read through an importer that has read other geometries (order {order}): columns {bad} differ', {'case': ci, 'order': order})
+                            break
+                finally:
+                    imp._file.close()
+        finally:
+            if os.path.exists(path):
+                os.remove(path)
+    ctx.sample({'file': '3D: hex8+wedge6 (gapped ids), tet10 (contiguous), tet4 (ids near 2^31)', 'orders': 'all 6'})
+
+
 @bounded('C20', 'failed-export-leaves-no-partial-object', shards=4)
 def b_failures(ctx):
     """histories of add_* calls including failing ones: after a call that raises, the set of geometries and of (state, geometry, variable) objects in the file is what it was before
